@@ -768,8 +768,14 @@ class Explorer:
                 continue
             self._emit(st, "call", csub, None, c, fi, depth, inlined=True)
             binding = self._bind_args(csub, c, targets, fi)
+            # the caller's names of the objects handed over (attribute stores made under these names travel along)
+            origins = {}
+            orig_binding = self._bind_args(c, c, targets, fi)
+            for p_, v_ in orig_binding.items():
+                if isinstance(v_, (ast.Name, ast.Attribute)) and dotted(v_) and p_ in binding:
+                    origins[p_] = dotted(v_)
             rest = calls[i:]
-            for p in self._explore_func(targets, binding, st, depth + 1):
+            for p in self._explore_func(targets, binding, st, depth + 1, origins):
                 s2 = p  # a _State carrying outcome information in attributes below
                 out, val, node = p._outcome  # type: ignore[attr-defined]
                 if out == "raise":
@@ -835,7 +841,7 @@ class Explorer:
         return binding
 
     # ------------------------------------------------------------------ functions
-    def _explore_func(self, fi: FuncInfo, binding: dict, st0: _State, depth: int):
+    def _explore_func(self, fi: FuncInfo, binding: dict, st0: _State, depth: int, origins: dict | None = None):
         """yields _State objects with attribute _outcome = (kind, value, node); the store of the
         yielded state is the *caller's* store again (callee locals are dropped)"""
         outer_store = st0.store
@@ -845,6 +851,7 @@ class Explorer:
         st.store = {**outer_store, **binding} if fi.parent is not None and fi.parent in self._stack else dict(binding)
         # attributes of an object passed by name (typically self) that the caller has assigned on this path
         passed = {p_: dotted(v_) for p_, v_ in binding.items() if isinstance(v_, (ast.Name, ast.Attribute)) and dotted(v_)}
+        passed.update(origins or {})
         for p_, dv in passed.items():
             for k_, val in outer_store.items():
                 if k_.startswith(dv + "."):
